@@ -40,6 +40,12 @@ type UploadCase struct {
 	// CrossDev: destination d2 lives on another file system (/dev/shm) when the machine has one;
 	// a Move there may fail as a whole (rename cannot cross devices) or succeed - never half-succeed.
 	CrossDev bool `json:"crossDev,omitempty"`
+	// DstLink: before the last operation somebody planted, in its destination directory, a symbolic
+	// link to root/outside/victim under the name of referenced file number DstLink-1 (1..n) or of
+	// the control file (n+1); 0 = none.  Writing through it would overwrite a file outside.
+	DstLink int `json:"dstLink,omitempty"`
+	// SelfAt > 0: the control file lists ITSELF among its files, as entry number SelfAt-1
+	SelfAt int `json:"selfAt,omitempty"`
 }
 
 // otherFileSystemDir returns a fresh directory on a file system different from the one of ref, or "".
@@ -106,6 +112,21 @@ func genUploadCase(t *rapid.T) UploadCase {
 		}
 		c.Fault = rapid.SampledFrom(opts).Draw(t, "fault")
 		c.FaultStep = rapid.IntRange(0, len(c.Files)).Draw(t, "faultStep")
+	}
+	if rapid.IntRange(0, 5).Draw(t, "dstLink") == 0 && last.Kind != "remove" {
+		c.DstLink = 1 + rapid.IntRange(0, len(c.Files)).Draw(t, "dstLinkAt")
+	}
+	if rapid.IntRange(0, 7).Draw(t, "selfListed") == 0 {
+		c.SelfAt = 1 + rapid.IntRange(0, len(c.Files)).Draw(t, "selfAt")
+		at := c.SelfAt - 1
+		self := UpFile{Name: c.ctlName(), Size: 10, Seed: 1}
+		c.Files = append(c.Files[:at], append([]UpFile{self}, c.Files[at:]...)...)
+		if c.Fault != "none" && c.FaultStep >= at {
+			c.FaultStep++ // keep the fault on the file (or the control file itself) it was drawn for
+		}
+		if c.DstLink > at {
+			c.DstLink++
+		}
 	}
 	c.Stale = rapid.IntRange(0, 3).Draw(t, "stale") == 0
 	c.CrossDev = rapid.IntRange(0, 4).Draw(t, "crossDev") == 0
@@ -264,6 +285,9 @@ func checkUploadCase(c UploadCase, r *Recorder) error {
 	os.WriteFile(filepath.Join(root, "d1", "planted"), []byte("PLANTED-IN-D1"), 0o644)
 	// referenced files: materialise those that resolve inside src
 	for _, f := range c.Files {
+		if f.Name == c.ctlName() {
+			continue // the control file itself, written below
+		}
 		p := filepath.Join(root, "src", f.Name)
 		if rel, err := filepath.Rel(filepath.Join(root, "src"), p); err == nil && !strings.HasPrefix(rel, "..") && rel != "." {
 			os.MkdirAll(filepath.Dir(p), 0o755)
@@ -277,7 +301,7 @@ func checkUploadCase(c UploadCase, r *Recorder) error {
 		// leftovers of an earlier upload: same names, same lengths, other bytes, written later than the sources
 		for _, dd := range []string{"d1", "d2"} {
 			for _, f := range c.Files {
-				if plainName(f.Name) {
+				if plainName(f.Name) && f.Name != c.ctlName() {
 					os.WriteFile(filepath.Join(root, dd, f.Name), bytes.Repeat([]byte{'S'}, f.Size), 0o644)
 				}
 			}
@@ -311,7 +335,24 @@ func checkUploadCase(c UploadCase, r *Recorder) error {
 		}
 		locDir, dstDir := filepath.Join(root, loc), filepath.Join(root, op.Dest)
 		if op.Dest == loc && op.Kind != "remove" {
-			// copying / moving onto itself is outside the statement; stop the history here
+			// copying / moving an upload onto itself: refusing is fine, succeeding is fine - but
+			// "success" must not cost a single byte (opening a file for writing over itself
+			// truncates it)
+			before := snapshotTree(locDir)
+			destArg := locDir
+			if len(c.Files)%2 == 1 {
+				destArg = filepath.Join(root, "d1", "..", loc) + "/." // another spelling of the same directory
+			}
+			var operr error
+			if op.Kind == "copy" {
+				operr = h.Copy(destArg)
+			} else {
+				operr = h.Move(destArg)
+			}
+			r.Count("onto-itself", 1)
+			if d := diffSnap(before, snapshotTree(locDir)); d != "" && !(c.SelfAt > 0 || !allPlain) {
+				return errf("%s of an upload into the directory it already lives in (given as %q) returned %v and left the directory changed (%s)", op.Kind, destArg, operr, d)
+			}
 			return nil
 		}
 		stepName := c.ctlName()
@@ -337,6 +378,18 @@ func checkUploadCase(c UploadCase, r *Recorder) error {
 		case "dst-is-file":
 			os.RemoveAll(dstDir)
 			os.WriteFile(dstDir, []byte("i am a file"), 0o644)
+		}
+		if lastOp && c.DstLink > 0 && op.Kind != "remove" && fault != "dst-missing" && fault != "dst-is-file" {
+			ln := c.ctlName()
+			if c.DstLink-1 < len(c.Files) {
+				ln = c.Files[c.DstLink-1].Name
+			}
+			if plainName(ln) && !(fault == "dst-squatted" && ln == stepName) {
+				os.RemoveAll(filepath.Join(dstDir, ln))
+				if os.Symlink(filepath.Join(root, "outside", "victim"), filepath.Join(dstDir, ln)) == nil {
+					r.Count("destination-symlink-planted", 1)
+				}
+			}
 		}
 		ctlBefore, _ := os.ReadFile(filepath.Join(locDir, c.ctlName()))
 		ctlInDstBefore, ctlInDstErr := os.ReadFile(filepath.Join(dstDir, c.ctlName())) // an earlier copy of this history may have put one there
@@ -406,6 +459,15 @@ func checkUploadCase(c UploadCase, r *Recorder) error {
 			if operr != nil {
 				return nil
 			}
+		} else if c.SelfAt > 0 && operr != nil {
+			// a control file that lists itself: refusing is fine - as long as nothing has happened
+			if isRegular(ctlInDst) && op.Kind != "remove" && ctlInDstErr != nil {
+				return errf("%s of a control file that lists itself failed (%v) but the control file is in the destination", op.Kind, operr)
+			}
+			if b, err := os.ReadFile(filepath.Join(locDir, c.ctlName())); op.Kind != "copy" && (err != nil || !bytes.Equal(b, ctlBefore)) {
+				return errf("%s of a control file that lists itself failed (%v) and the control file is no longer intact at its source", op.Kind, operr)
+			}
+			return nil
 		} else if operr != nil {
 			return errf("%s %d of a plain upload (%d files) failed: %v", op.Kind, oi, len(c.Files), operr)
 		}
@@ -419,7 +481,7 @@ func checkUploadCase(c UploadCase, r *Recorder) error {
 				return errf("after %s the control file in the destination is missing or differs (%v)", op.Kind, err)
 			}
 			for _, f := range c.Files {
-				if !plainName(f.Name) {
+				if !plainName(f.Name) || f.Name == c.ctlName() {
 					continue
 				}
 				b, err := os.ReadFile(filepath.Join(dstDir, f.Name))
@@ -443,7 +505,7 @@ func checkUploadCase(c UploadCase, r *Recorder) error {
 				return errf("after remove the control file still exists")
 			}
 			for _, f := range c.Files {
-				if !plainName(f.Name) {
+				if !plainName(f.Name) || f.Name == c.ctlName() {
 					continue
 				}
 				if _, serr := os.Stat(filepath.Join(locDir, f.Name)); serr == nil {
@@ -466,7 +528,7 @@ func upNames(fs []UpFile) []string {
 
 var specC20 = Register(&Spec[UploadCase]{
 	Prop: "C20", Name: "upload",
-	Rule: "histories of 1..3 operations (Copy/Move into d1|d2, Remove) on one .dsc or .changes handle over a fresh scratch tree root/{src,src/sub,d1,d2,outside}; 0..5 referenced files (sizes 0, 1, 7, 300, 32767..32769, 100000); a quarter of the uploads list adversarial names ('../outside/victim', '../d1/planted', 'sub/x', absolute, '..', '.', 'sub/../../outside/victim') and/or carry a literal 'Filename:' field pointing elsewhere; in a quarter of the cases both destinations already hold same-named files of the same length with other bytes (leftovers of an earlier upload); in a fifth of the cases d2 is on another file system (/dev/shm, when there is one), where a Move may fail as a whole but must not half-succeed; the last operation optionally runs with ONE planted fault at step i in {file 0..n-1, control file}: source deleted, source replaced by a non-empty directory, a non-empty directory squatting on the destination name, destination directory missing or a regular file. Oracle: success (plain names, no fault) => all files and the control file byte-identical in the destination (Move: gone from source; Remove: gone), handle.Filename == dest/base; fault => an error, no regular control file in the destination, for Move/Remove the control file intact at its source; always => root/outside bit-identical, no destination file carries outside content, d1/planted untouched when d1 is not involved. Non-trivial: >= 2 files with a fault at step >= 1, or non-plain names; distinct by case.",
+	Rule: "histories of 1..3 operations (Copy/Move into d1|d2, Remove) on one .dsc or .changes handle over a fresh scratch tree root/{src,src/sub,d1,d2,outside}; 0..5 referenced files (sizes 0, 1, 7, 300, 32767..32769, 100000); a quarter of the uploads list adversarial names ('../outside/victim', '../d1/planted', 'sub/x', absolute, '..', '.', 'sub/../../outside/victim') and/or carry a literal 'Filename:' field pointing elsewhere; in a quarter of the cases both destinations already hold same-named files of the same length with other bytes (leftovers of an earlier upload); in a fifth of the cases d2 is on another file system (/dev/shm, when there is one), where a Move may fail as a whole but must not half-succeed; in a sixth of the cases the destination of the last operation holds a planted symbolic link to root/outside/victim under the name of a referenced file or of the control file; in an eighth the control file lists itself (refusing is fine, but then nothing may have moved and the control file is not in the destination); an operation whose destination is the directory the upload already lives in (also spelled d1/../src/.) must leave that directory bit-identical whatever it returns; the last operation optionally runs with ONE planted fault at step i in {file 0..n-1, control file}: source deleted, source replaced by a non-empty directory, a non-empty directory squatting on the destination name, destination directory missing or a regular file. Oracle: success (plain names, no fault) => all files and the control file byte-identical in the destination (Move: gone from source; Remove: gone), handle.Filename == dest/base; fault => an error, no regular control file in the destination, for Move/Remove the control file intact at its source; always => root/outside bit-identical, no destination file carries outside content, d1/planted untouched when d1 is not involved. Non-trivial: >= 2 files with a fault at step >= 1, or non-plain names; distinct by case.",
 	Check: checkUploadCase,
 })
 
